@@ -135,7 +135,7 @@ FACET_Q = {"ReferenceNormal", "CellFacetJacobian", "ReferenceFacetVolume", "Refe
 
 @rule(
     "GEOM-ACCESS",
-    ["C02", "C04", "C01", "C19", "C17"],
+    ["C02", "C04", "C01", "C19", "C17", "C03", "C08"],
     "for each reference-geometry / vertex-coordinate quantity and samples of (cell, integral type, restriction, local entity, component): "
     "FFCXBackendAccess.get (dispatch table included) gives the access expression; generate_geometry_tables of both generators with "
     "geometry.write_table interpreted over basix library facts and tagged stand-in arrays gives the declarations; executed together with "
@@ -172,7 +172,8 @@ def geom_access(repo, res):
             scalar = Node("Element", reference_value_size=1, block_size=1, dim=nverts, entity_dofs=[[[v] for v in range(nverts)]] + [[[] for _ in d] for d in topology(c)[1:]],
                           reference_topology=topology(c))
             cel = Node("_BlockedElement", reference_value_shape=(3,), sub_elements=[scalar], embedded_superdegree=1)
-            mesh = Node("Mesh", ufl_cell=_PyCall(lambda _c=c: Node("Cell", cellname=_c)), geometric_dimension=3, ufl_coordinate_element=_PyCall(lambda _e=cel: _e))
+            mesh = Node("Mesh", ufl_cell=_PyCall(lambda _c=c: Node("Cell", cellname=_c)), geometric_dimension=3, ufl_coordinate_element=_PyCall(lambda _e=cel: _e),
+                        ufl_id=_PyCall(lambda: 777))
             nf = _nfacets(c)
             nr = len(EDGES[c])
             for itype, etype, restr in itypes:
@@ -189,6 +190,10 @@ def geom_access(repo, res):
                               global_derivatives=(), reference_value=False, base_form_op=None)
                     try:
                         symbols = it.overrides["FFCXBackendSymbols"].fn({}, {}, {})
+                        if qcls in ("CellVertices", "CellEdgeVectors", "FacetEdgeVectors") and comp == comps_of(c)[-1] and isinstance(symbols.f.get("domain_numbers"), dict):
+                            # another mesh of the kernel was numbered first (its Jacobian was used before): the caller still passes the coordinates
+                            # of the integration domain only, so the vertex coordinates stay where they were
+                            symbols.f["domain_numbers"][424242] = 0
                         access = it.overrides["FFCXBackendAccess"].fn(etype, itype, symbols, {"scalar_type": "float64"})
                         rule_ = Node("QuadratureRule", id=_PyCall(lambda: "r0"))
                         expr = it.call_f(get, [access, mt, None, rule_])
@@ -247,7 +252,7 @@ def geom_access(repo, res):
                             continue
                         for ent in ents:
                             e_idx = ent[(1,)] if (restr == "-" and etype == "facet") else ent[(0,)]
-                            ex = Exec(outputs=(), concrete={"entity_local_index": dict(ent)}, extents={"coordinate_dofs": (3 * nverts * 2,)})
+                            ex = Exec(outputs=(), concrete={"entity_local_index": dict(ent)}, extents={"coordinate_dofs": (3 * nverts * (2 if itype == "interior_facet" else 1),)})
                             try:
                                 ex.run(parts)
                                 got = ex.ev(expr)
